@@ -1,4 +1,5 @@
 import Tbx.Model.Arr
+import Tbx.Model.LruL0
 /-
 L1 model of `src/linked_list.rs` and `src/lru.rs`: pointer level.
 
@@ -188,17 +189,22 @@ def popBack (s : LL T) : Except Err (LL T × Option T) :=
   | none => .ok (s, none)
   | some node =>
     -- let boxed_node = Box::from_raw(node); let result = boxed_node.elem;
-    match s.mem.free node with
+    -- (the box stays allocated until the end of the closure)
+    match s.mem.rd node with
     | .error e => .error e
-    | .ok (m1, n) =>
+    | .ok n =>
     -- self.back = boxed_node.next;
     let back' := n.next
-    match popFixup m1 s.front back' with
+    match popFixup s.mem s.front back' with
     | .error e => .error e
-    | .ok (m2, front') =>
+    | .ok (m1, front') =>
     -- self.len -= 1
     if s.len = 0 then .error .underflow
-    else .ok ({ mem := m2, front := front', back := back', len := s.len - 1 }, some n.elem)
+    else
+    -- "Box gets implicitly freed here"
+    match m1.free node with
+    | .error e => .error e
+    | .ok (m2, _) => .ok ({ mem := m2, front := front', back := back', len := s.len - 1 }, some n.elem)
 
 def length (s : LL T) : Nat := s.len
 def isEmpty (s : LL T) : Bool := s.len == 0
@@ -235,6 +241,41 @@ def setFront (s : LL T) (t : T) : Except Err (LL T × T) :=
     match s.mem.setElem f t with
     | .error e => .error e
     | .ok (m, old) => .ok ({ s with mem := m }, old)
+
+/-- operations of a direct history of the list; cursors are the addresses returned by `push_front` -/
+inductive Op (T : Type) where
+  | pushFront (t : T)
+  | moveToFront (cursor : Nat)
+  | popBack
+  | setFront (t : T)
+  | clear
+
+/-- one operation; results other than the state are dropped here (they are covered per operation) -/
+def step (s : LL T) : Op T → Except Err (LL T)
+  | .pushFront t =>
+    match s.pushFront t with
+    | .ok (s', _) => .ok s'
+    | .error e => .error e
+  | .moveToFront c => s.moveToFront c
+  | .popBack =>
+    match s.popBack with
+    | .ok (s', _) => .ok s'
+    | .error e => .error e
+  | .setFront t =>
+    match s.setFront t with
+    | .ok (s', _) => .ok s'
+    | .error e => .error e
+  | .clear =>
+    match s.clear with
+    | .ok (s', _) => .ok s'
+    | .error e => .error e
+
+def run (s : LL T) : List (Op T) → Except Err (LL T)
+  | [] => .ok s
+  | op :: ops =>
+    match s.step op with
+    | .error e => .error e
+    | .ok s' => run s' ops
 
 end LL
 
@@ -369,6 +410,45 @@ def clear (s : Lru K V) : Except Err (Lru K V) :=
 
 /-- dropping the cache drops `lru_list` (→ `clear`) and the map (cursors are plain pointers) -/
 def drop (s : Lru K V) : Except Err (Lru K V) := clear s
+
+/-- one operation of a history (same `Op`/`Out` as the L0 model) -/
+def step (s : Lru K V) : LruL0.Op K V → Except Err (Lru K V × LruL0.Out K V)
+  | .push k v =>
+    match s.push k v with
+    | .ok s' => .ok (s', .unit)
+    | .error e => .error e
+  | .get k =>
+    match s.get k with
+    | .ok (s', r) => .ok (s', .val r)
+    | .error e => .error e
+  | .contains k => .ok (s, .bool (s.contains k))
+  | .front =>
+    match s.getFront with
+    | .ok r => .ok (s, .entry r)
+    | .error e => .error e
+  | .setFront v =>
+    match s.setFront v with
+    | .ok (s', r) => .ok (s', .entry r)
+    | .error e => .error e
+  | .clear =>
+    match s.clear with
+    | .ok s' => .ok (s', .unit)
+    | .error e => .error e
+  | .len =>
+    match s.len with
+    | .ok n => .ok (s, .nat n)
+    | .error e => .error e
+
+/-- a whole history; the first error (use after free, failed unwrap/assertion, …) aborts it -/
+def run (s : Lru K V) : List (LruL0.Op K V) → Except Err (Lru K V × List (LruL0.Out K V))
+  | [] => .ok (s, [])
+  | op :: ops =>
+    match s.step op with
+    | .error e => .error e
+    | .ok (s', o) =>
+      match run s' ops with
+      | .error e => .error e
+      | .ok (s'', os) => .ok (s'', o :: os)
 
 end Lru
 
